@@ -12,7 +12,7 @@ from common import Atom, Case, Run, call_impl, prepare, enc_graph, sx, ImplError
 from c13 import check_model_spec, finalize_model_spec
 from c14 import (canon_graph, fingerprint, enc_config, effective_groups, gen_config, num_exp, shipped, table_cases)
 
-PROOFS = ["FGVerif.Proofs.C15"]
+PROOFS = ["FGVerif.Proofs.C15", "FGVerif.Proofs.C15General"]
 
 
 class PathSampler:
@@ -50,6 +50,12 @@ def count_hyp(r, outs):
     for o in outs:
         if o.ok_reply and o.case.tags[:1] == ("reaction",) and len(o.extra) >= 1:
             r.count("theorem_hypotheses_hold" if o.extra[0] == "1" else "theorem_hypotheses_false(e.g. (0,0) bond)")
+            if len(o.extra) >= 3:
+                # C15.superposition_general: hypotheses `generalOk`, and the general get_its(*split_its(x)) of the C09/C10
+                # models (through the adapter of Model/C15General.lean) evaluated on the sample
+                r.count("general_superposition_hypotheses_hold" if o.extra[1] == "1" else "general_superposition_hypotheses_false")
+                if o.extra[1] == "1" and o.extra[2] != "1":
+                    r.notes["general_resuper_failures"] = r.notes.get("general_resuper_failures", 0) + 1
 
 
 def sanitize_fail(g):
@@ -189,11 +195,19 @@ def run(tier, seed):
                            {"theorem_or_correspondence": ["assumed contract parse(p, idx_offset=k) = shift (parse p) k (C01)"],
                             "witnesses": [list(b) for b in bad[:5]]})
         r.violation_lines.append("VIOLATION property=C15 replay=%s no-failing-input-found" % p)
+    if r.notes.get("general_resuper_failures"):
+        p = r.write_replay("theorem", "superposition_general", {"theorem_or_correspondence": [
+            "C15.resuperGeneralB_ok: generalOk x but the general get_its(*split_its(x)) differs from the lifted pattern on %d samples"
+            % r.notes["general_resuper_failures"]]})
+        r.violation_lines.append("VIOLATION property=C15 replay=%s no-failing-input-found" % p)
     finalize_model_spec(r)
     r.extra_cov["notes"] = r.notes
     r.assumptions = [
         "Model/C13.lean, Model/C14.lean (validated by the C13/C14 checks); split_its as modelled in Model/C15.lean "
-        "(validated here on every sample); get_its restricted to graphs on the same nodes with aam = id+1 (C09/C10 are another builder's)",
+        "(validated here on every sample); superposition is checked twice on every sample: with the small get_its of Model/C15.lean "
+        "(graphs on the same nodes with aam = id+1) and with the general get_its of Model/C09.lean (validated against fgutils.its by "
+        "the C09/C10 checks) through the adapter of Model/C15General.lean; C15.superposition_general / getIts_small_eq_general prove "
+        "that the two agree on every sample in the decidable domain generalOk",
         "RDKit (RWMol, sanitisation incl. kekulisation) is not modelled: 'valence-valid molecules' is checked by the harness only; "
         "the model-side explicit-valence bound uses a fixed table of maximal valences (Model/C15.lean: maxValence)",
         "the DA-centre shape clause is a test: exhaustive enumeration of the finite shipped configuration by the compiled model and by Python "
@@ -206,8 +220,9 @@ def run(tier, seed):
              "parser, samples with >= 41 atoms); DielsAlderProxy both modes: %d random choice paths per mode (quick) / complete enumeration "
              "(thorough); non-trivial = sample whose expanded pattern carries at least one ITS pair label" % n_paths,
         checker_cmd="cd lean && lake build FGVerif.Proofs.C15 && lake env lean FGVerif/Audit/C15.lean",
-        explanation="theorems C15.balanced_mapped / C15.superposition (general) and C15.da_counts (generated table, kernel arithmetic) in "
-                    "lean/FGVerif/Proofs/C15.lean; executable property (balanced, mapped, superposition, daCentreOk) applied by the compiled "
+        explanation="theorems C15.balanced_mapped / C15.superposition / C15.superposition_general (for the general C09/C10 models of "
+                    "get_its/split_its, Proofs/C15General.lean) and C15.da_counts (generated table, kernel arithmetic) in "
+                    "lean/FGVerif/Proofs/C15*.lean; executable property (balanced, mapped, superposition, daCentreOk) applied by the compiled "
                     "driver to every implementation sample; model tied to the code sample by sample")
 
 
